@@ -196,6 +196,9 @@ func spellingDims(a, b model.Spelling) []string {
 	if a.Heading != b.Heading {
 		d = append(d, "heading<->list-roots")
 	}
+	if a.Heading && a.HeadingFrom > 0 || b.Heading && b.HeadingFrom > 0 {
+		d = append(d, "mixed(list-roots-then-heading-roots)")
+	}
 	if fmt.Sprint(a.Blank, a.Trail) != fmt.Sprint(b.Blank, b.Trail) {
 		d = append(d, "blank-lines")
 	}
@@ -225,7 +228,7 @@ func c15Record(col *collector, c c15Case) {
 func TestC15Exhaustive(t *testing.T) {
 	col := coll("C15", "exhaustive")
 	maxN := pick(4, 7)
-	col.Rule = fmt.Sprintf("all forests <=%d nodes over {a,b} x all 15 pairs of the 6-spelling panel x rotating operation (text, noiter, json, yaml, toml, dryrun, walk; mkdir/verify every 8th)", maxN)
+	col.Rule = fmt.Sprintf("all forests <=%d nodes over {a,b} x all 15 pairs of the 6-spelling panel x rotating operation (text, noiter, json, yaml, toml, dryrun, walk; mkdir/verify every 8th), plus for forests of >=2 roots every split point k of the mixed notation (first k roots as list items, the rest as # headings) against the plain spelling", maxN)
 	i, rot := 0, 0
 	model.EnumForests(maxN, []string{"a", "b"}, func(f model.Forest) {
 		i++
@@ -254,6 +257,16 @@ func TestC15Exhaustive(t *testing.T) {
 				if msg := c15Check(c); msg != "" {
 					violation(t, "C15", "c15", c, msg)
 				}
+			}
+		}
+		// the mixed notation: the first k roots as list items, the others as headings, against the plain list spelling
+		for k := 1; k < len(f); k++ {
+			rot++
+			op := []string{"text", "walk", "json", "noiter", "dryrun"}[rot%5]
+			c := c15Case{Forest: f, Sp1: model.Plain2, Sp2: model.Spelling{Unit: 2 + rot%2*2, Heading: true, HeadingFrom: k, Hashes: []int{1 + rot%2}}, Op: op, Exts: []string{"b"}}
+			c15Record(col, c)
+			if msg := c15Check(c); msg != "" {
+				violation(t, "C15", "c15", c, msg)
 			}
 		}
 	})
@@ -304,6 +317,15 @@ func c15Gen() *rapid.Generator[c15Case] {
 		c := c15Case{Forest: f, Op: op}
 		c.Sp1 = genSpelling(f.HeadingOK()).Draw(t, "sp1")
 		c.Sp2 = genSpelling(f.HeadingOK()).Draw(t, "sp2")
+		if !strings.HasPrefix(op, "massive") && len(f) >= 2 {
+			// the mixed notation: the first roots as list items, the later ones as headings (in massive mode such documents are
+			// the known finding C10/massive-mixed-roots)
+			for _, sp := range []*model.Spelling{&c.Sp1, &c.Sp2} {
+				if sp.Heading && rapid.IntRange(0, 2).Draw(t, "mixed") == 0 {
+					sp.HeadingFrom = rapid.IntRange(1, len(f)-1).Draw(t, "headingFrom")
+				}
+			}
+		}
 		switch op {
 		case "text", "noiter", "walk":
 			c.Branch = genBranch().Draw(t, "branch")
@@ -320,7 +342,7 @@ func c15Gen() *rapid.Generator[c15Case] {
 
 func TestC15Random(t *testing.T) {
 	col := coll("C15", "random")
-	col.Rule = "rapid: one forest, two independently drawn spellings (unit, tabs, bullets per line, heading roots, blank lines, CRLF, final newline) x operation; non-trivial = spellings differ in >=2 dimensions and the forest has depth>=3 or >=2 roots"
+	col.Rule = "rapid: one forest, two independently drawn spellings (unit, tabs, bullets per line, heading roots incl. the mixed notation list-roots-then-heading-roots, blank lines, CRLF, final newline) x operation; non-trivial = spellings differ in >=2 dimensions and the forest has depth>=3 or >=2 roots"
 	rapid.Check(t, func(rt *rapid.T) {
 		c := c15Gen().Draw(rt, "case")
 		c15Record(col, c)
